@@ -545,3 +545,20 @@ def register_methods2(w):
                             requires=[("semantics_cache_invariant_binary_op", req_op)], definitions=[("op_key_means_the_op_applied_to_its_operands", def_op)],
                             modifies=MODS, props=["C04"], witnesses=["D5", "C04_dimexpr_family"],
                             ensures=[("python_floor_semantics", post_op), ("cache_invariant", post_inv)], raises={"RuntimeError", "ValueError", "TypeError"}, ret=Ref(VALUE)))
+
+    # ---- bounded stand-in (never counted as proved): dimension symbols inside @onnx_function bodies shared between call sites
+    def bounded_function_symbols(world, c, out):
+        import time
+        from pyvc.run import run_witness
+        t0 = time.time()
+        holds, detail = run_witness("C04_function_symbol_binding_family", timeout=1200)
+        d = {"oid": "jax2onnx.plugins.plugin_system:FunctionPlugin._lower_and_call#bounded:call_sites_sharing_a_function_body_correlate_their_dimension_symbols_alike", "kind": "bounded",
+             "status": "discharged" if holds else ("refuted" if holds is False else "unknown"), "backend": "enumerated", "time": time.time() - t0, "instances": 1, "trivial": 0,
+             "bounded": "2 @onnx_function targets x 3 orders of two call sites (f(a,a)/f(a,b)/f(b,a)) with inputs [('T',3),('S',3)], (T,S) in {(1,3),(3,1),(2,2),(2,5),(4,3)}",
+             "note": f"the function de-duplication key and the re-anchoring of symbols on function inputs are not under contract; the real export is run and compared with JAX; {detail}"[:500]}
+        if holds is False:
+            d.update(args={"witness": "C04_function_symbol_binding_family"}, replay={"reproduced": True, "detail": detail}, formula="", model=detail)
+        out["obls"].append(d)
+        out["paths"], out["time"] = 1, time.time() - t0
+        return out
+    w.add_contract(Contract("jax2onnx.plugins.plugin_system:<bounded-function-symbols>", kind="custom", custom=bounded_function_symbols, props=["C04"], witnesses=["C04_function_symbol_binding_family"]))
